@@ -51,3 +51,19 @@ PROPS = {
                               'the fitter state or the source is modified) from which history independence follows for all histories'],
         explanation='E1: frame obligations of every function on the fit path (history independence for all histories); E2: paired runs.'),
 }
+
+UT = 'sedfitter.utils.'
+FLT = 'sedfitter.filter.filter.Filter.'
+M1 = 'M1/M2 (calculus, not mechanised): the trapezium sum over a grid containing every breakpoint of a piecewise-linear function is its integral, additive over adjacent intervals'
+
+PROPS['C06'] = dict(
+    level='other',
+    e1=[UT + 'integrate.integrate', UT + 'interpolate.interp1d_fast', FLT + 'normalize', FLT + 'rebin'],
+    e2=('rtc.conv_props', 'run_c06'),
+    assumptions=COMMON + [T_LOOP, M1, 'integrate_subset: its contract (exact piecewise-linear integral between the limits) is ASSUMED at the call site in '
+                          'Filter.rebin and checked on the real function only by the bounded run (exhaustive node/midpoint limits on 2..5-node grids + random)',
+                          'dep: np.searchsorted (side=left partition of a sorted array; sortedness is an obligation)'],
+    explanation='E1 proves: integrate = trapezium sum (frame: y untouched); interp1d_fast = the line of every bracketing segment (incl. the x[-1] wrap at the first node); '
+                'normalize divides by |integral|; rebin: response_i = PLI(clipped midpoint edges) with the clip to the filter\'s own [min,max] range for either storage '
+                'order, integrate_subset preconditions at the call site. NOT proved (bounded only): integrate_subset body, sum R_i = integral over the overlap, flat-spectrum '
+                'and linearity corollaries, convolve_model_dir regions. Level "other": kernels proved, composition bounded.')
